@@ -201,6 +201,76 @@ def check_case(case):
 
 
 def wild_newton_step(case, out):
+    """KF-PN-WILD-STEP root cause, established twice: the implementation takes an astronomically large step
+    (`_impl_wild`, a probe ON the code under test) AND reference maths confirm a vanishing-curvature point on the way
+    (`predicted_wild_step` at the start or at one of the first three outer iterates, or `saturated_iterate`).  The
+    second leg keeps a defect that merely produces huge steps from hiding behind the known finding."""
+    if not _impl_wild(case, out):
+        return False
+    import json
+    from .c03 import start_point
+    pts = [np.asarray(start_point(case), float)]
+    own = int(case["solver"].get("max_pn_iter", 1))
+    for mi in (1, 2, 3):
+        for mp in sorted({m for m in (1, 2, 5, 20, 100, own) if m <= max(own, 1)}):
+            c = json.loads(json.dumps(case))
+            c["solver"]["max_iter"], c["solver"]["max_pn_iter"] = mi, mp
+            o = P.run(c)
+            if o.exc is None and o.w is not None and np.all(np.isfinite(np.asarray(o.w, float))):
+                pts.append(np.asarray(o.w, float))
+    if any(predicted_wild_step(case, pt) for pt in pts):
+        return True
+    return saturated_iterate(case) or no_minimiser(case)
+
+
+def no_minimiser(case):
+    """Reference-side (LP) test that a logistic problem has no minimiser: a direction d exists that no penalty term
+    charges (penalised coordinates fixed to 0, sign-constrained ones >= 0, unpenalised ones and the intercept free)
+    with y_i (x_i . d + d_b) >= 0 for all i and > 0 for some i.  Along it the objective decreases for ever, the iterates
+    drift until every margin saturates, the Hessian weights underflow and NaN appears: same end state as
+    KF-PN-WILD-STEP-NAN, reached gradually."""
+    try:
+        d = case["datafit"]
+        if d is None or d["name"] not in ("Logistic", "LogisticGroup"):
+            return False
+        from scipy.optimize import linprog
+        X = np.array(case["X"], float)
+        y = np.array(case["y"], float)
+        n, p = X.shape
+        pen = case["penalty"]
+        fi = bool(case["solver"].get("fit_intercept", False))
+        lo, hi = np.zeros(p), np.zeros(p)
+        nm = pen["name"]
+        if nm == "PositiveConstraint":
+            hi[:] = 1.
+        elif nm == "IndicatorBox":
+            return False
+        elif "weights" in pen and "groups" not in pen:
+            wts = np.array(pen["weights"], float)
+            free = wts == 0
+            hi[free] = 1.
+            lo[free] = 0. if pen.get("positive") else -1.
+        elif "groups" in pen:
+            for g, wg in zip(pen["groups"], pen["weights"]):
+                if wg == 0:
+                    hi[g] = 1.
+                    lo[g] = 0. if pen.get("positive") else -1.
+        elif pen.get("alpha", 1.) == 0:
+            lo[:], hi[:] = -1., 1.
+        A = y[:, None] * X
+        bounds = [(float(a), float(b)) for a, b in zip(lo, hi)]
+        if fi:
+            A = np.c_[A, y]
+            bounds.append((-1., 1.))
+        if not any(b[1] > b[0] for b in bounds):
+            return False
+        res = linprog(-A.sum(0), A_ub=-A, b_ub=np.zeros(n), bounds=bounds, method="highs")
+        return bool(res.status == 0 and -res.fun > 1e-9)
+    except Exception:  # noqa
+        return False
+
+
+def _impl_wild(case, out):
     """root-cause probe for ProxNewton buffer mismatches: do the first prox-Newton steps from the start point move
     the coefficients by more than 1e3 x (size of start and final points)?  (saturated GLM: Hessian ~ 0; inside
     the step computation the iterates are larger still, and round-off is relative to *them*)"""
